@@ -1,7 +1,7 @@
 ---- MODULE MCSession ----
 EXTENDS Session
 T(id, names) == [id |-> id, names |-> names]
-MCGood == { T("e5", {"e5"}), T("i1", {"i1"}), T("t2", {"t2"}), T("a3", {"a3"}), T("m4", {"m4"}), T("s4", {"s4"}), T("t2b", {"t2"}) }
-MCGoodQuick == { T("e5", {"e5"}), T("i1", {"i1"}), T("t2", {"t2"}), T("a3", {"a3"}), T("m4", {"m4"}), T("s4", {"s4"}) }
-MCBad == { "x-syntax", "x-typedefs-then-rejected", "x-unknown-top", "x-second-module-rejected" }
+MCGood == { T("t2c", {"t2"}), T("ib", {"ib"}), T("bb-r1", {"bb@1"}), T("bb-r2", {"bb@2"}), T("e5", {"e5"}), T("i1", {"i1"}), T("t2", {"t2"}), T("a3", {"a3"}), T("m4", {"m4"}), T("s4", {"s4"}), T("t2b", {"t2"}) }
+MCGoodQuick == { T("t2c", {"t2"}), T("ib", {"ib"}), T("bb-r1", {"bb@1"}), T("bb-r2", {"bb@2"}), T("e5", {"e5"}), T("i1", {"i1"}), T("t2", {"t2"}), T("a3", {"a3"}), T("m4", {"m4"}), T("s4", {"s4"}) }
+MCBad == { "x-top-level-grouping", "x-syntax", "x-typedefs-then-rejected", "x-unknown-top", "x-second-module-rejected" }
 ====
